@@ -16,7 +16,7 @@ import (
 
 // C08 — arithmetic and numeric functions follow XPath 1.0 / IEEE 754.
 
-const ruleC08 = "rapid: document with numeric (and a few non-numeric) values x context x arithmetic tree of depth <= 4 over number literals (0, 7, 007, 1., .5, 12.50, 17-digit literals), unary minus (incl. --x), + - * div, mod on non-negative integer operands with a non-zero literal divisor, floor, ceiling, number(literal | flat path | expression), count(flat), sum(flat path whose nodes are all numeric), string-length(flat); and string(e) of the same trees when the reference value is finite and |v| < 10^6. enum (exhaustive grid): string(k div 10^e), its negative, the same value as a literal and as number(' literal\\n') for k = 1..999, e = 0..9. Oracle: Evaluate = reference evaluator, float64 compared exactly (NaN = NaN), strings equal. Non-trivial: tree depth >= 2 with a document-derived operand or a NaN/infinite value; distinct by (document, context, expression)."
+const ruleC08 = "rapid: document with numeric (and a few non-numeric) values x context x arithmetic tree of depth <= 4 over number literals (0, 7, 007, 1., .5, 12.50, 17-digit literals), unary minus (incl. --x), + - * div, mod on non-negative integer operands with a non-zero literal divisor, floor, ceiling, number(literal | flat path | expression), count(flat), sum(flat path whose nodes are all numeric), string-length(flat); and string(e) of the same trees when the reference value is finite and |v| < 10^6. enum (exhaustive grid): string(k div 10^e), its negative, the same value as a literal and as number(' literal\\n') for k = 1..999, e = 0..9. Oracle: Evaluate = reference evaluator, float64 compared exactly (NaN = NaN), strings equal; one case in three also evaluates the one compiled expression node by node through the document. Non-trivial: tree depth >= 2 with a document-derived operand or a NaN/infinite value; distinct by (document, context, expression)."
 
 var (
 	uC08     = harness.NewUnit("C08", "rapid-arithmetic", ruleC08)
@@ -25,9 +25,23 @@ var (
 
 func init() {
 	harness.RegisterOracle("C08/arith", func(l *harness.Live) *harness.Failure {
-		_, f := scalarOracle(l)
+		_, f := oracleC08(l)
 		return f
 	})
+}
+
+// oracleC08: the reference value at the context node, and - for one case in three - the same
+// compiled expression evaluated node by node through the document (a value computed at one
+// node is the value at that node only).
+func oracleC08(l *harness.Live) (harness.Value, *harness.Failure) {
+	want, f := scalarOracle(l)
+	if f != nil || l.Doc == nil || len(l.Doc.Nodes) < 3 || !hasPath(l.AST) || xast.HasCall(l.AST, "sum", "string-length") {
+		// (sum() is claimed over nodes that are all numeric and string-length() is drawn over
+		// ASCII values only; the generator sees to both at the drawn context node, so an
+		// expression with either is not taken to other nodes)
+		return want, f
+	}
+	return want, sweepContexts(l)
 }
 
 func depthOf(e xast.Expr) int {
@@ -88,7 +102,7 @@ func TestC08Rapid(t *testing.T) {
 			}
 		}
 		l := &harness.Live{Property: "C08", Check: "C08/arith", Doc: doc, Ctx: ctx, AST: e, Expr: xast.Render(e), Flavour: flavourOf(rt)}
-		want, f := scalarOracle(l)
+		want, f := oracleC08(l)
 		if f != nil {
 			if inconclusive(uC08, f) {
 				return
